@@ -3,6 +3,7 @@
 from __future__ import annotations
 
 import ast
+import re
 
 from ..model import AnalysisError, norm, walk_live, parent, ancestors, first_line
 from ..report import RuleResult
@@ -98,6 +99,24 @@ def rule_factor_solve(P):
                     j = _idx(sd.args[0])[0]
                     ok = _idx(a) == [t[0], j] and _idx(b) == [j, t[1]] and norm(a.value) == norm(b.value) == norm(plain[0].value) == norm(sd.args[0].value)
     r.add(c, st, ok, "" if ok else f"`{first_line(st)}` is not old[i,k] + old[i,j]·star(old[j,j])·old[j,k] in that order", slots=slots)
+    # double buffering: when the round ends with `old, new = new, old`, the buffer written next must start empty in every round
+    rnd = W.enclosing_loops(st)[-1] if W.enclosing_loops(st) else None
+    rnd = next((lp_ for lp_ in W.enclosing_loops(st) if lp_ in c.node.body or any(lp_ in getattr(x, "body", []) for x in c.node.body)), rnd)
+    outer = [lp_ for lp_ in W.enclosing_loops(st)]
+    outer = max(outer, key=lambda l_: -W.pos(l_)[0]) if outer else None  # outermost
+    if outer is not None and isinstance(st.targets[0].value, ast.Name):
+        buf = st.targets[0].value.id
+        swap = [n for n in outer.body if isinstance(n, ast.Assign) and isinstance(n.targets[0], ast.Tuple) and isinstance(n.value, ast.Tuple)
+                and buf in [norm(e) for e in n.targets[0].elts] and sorted(norm(e) for e in n.targets[0].elts) == sorted(norm(e) for e in n.value.elts)
+                and [norm(e) for e in n.targets[0].elts] != [norm(e) for e in n.value.elts]]
+        if swap:
+            fresh = [n for n in outer.body if W.pos(n) < W.pos(W.stmt_of(st)) and (
+                (isinstance(n, ast.Expr) and isinstance(n.value, ast.Call) and isinstance(n.value.func, ast.Attribute) and n.value.func.attr == "clear" and W.is_name(n.value.func.value, buf))
+                or (isinstance(n, ast.Assign) and W.is_name(n.targets[0], buf) and isinstance(n.value, ast.Call)))]
+            ok = bool(fresh)
+            r.add(c, swap[0], ok, "" if ok else f"the buffers are swapped at the end of every round but `{buf}` is not emptied (or re-allocated) at the start of the "
+                  f"next one: it still holds the entries of two rounds ago; every (i,k) in N×N is overwritten, but entries outside the block (edges "
+                  f"entering it, present when the first buffer is built from more than N×N) survive in one parity and are returned", construct="_closure: double buffer")
     one = [n for n in walk_live(c.node) if isinstance(n, ast.AugAssign) and isinstance(n.op, ast.Add) and norm(n.value).endswith(".one")]
     ok = len(one) == 1 and _idx(one[0].target) is not None and len(set(_idx(one[0].target))) == 1
     r.add(c, one[0] if one else c.node, ok, "" if ok else "the reflexive closure must add one on the diagonal")
@@ -183,7 +202,7 @@ def rule_tarjan(P):
     return r
 
 
-ACCUM_GRAPHS = ["wfsa/base.py::WFSA.G", "cfg.py::CFG._unary_graph", "cfg.py::CFG._unary_graph_transpose"]
+ACCUM_GRAPHS = ["wfsa/base.py::WFSA.G", "wfsa/base.py::WFSA.E", "cfg.py::CFG._unary_graph", "cfg.py::CFG._unary_graph_transpose"]
 
 
 def rule_accum_graph(P):
@@ -206,8 +225,54 @@ def rule_accum_graph(P):
             ok = isinstance(n, ast.AugAssign) and isinstance(n.op, ast.Add)
             r.add(f, n, ok, "" if ok else f"`{first_line(n)}` overwrites the edge weight: with two arcs between the same pair of states "
                   f"(different labels, or ε next to a symbol) the backward/forward weights, total_weight and push lose mass")
-    r.min_instances = 3
+            # which arcs/rules become edges: exactly the expected selection, nothing more restrictive
+            want = ACCUM_GUARDS[q]
+            got = sorted(t for t in W.cfacts(f.node, n) if not t.startswith("len(") or True)
+            lp = next((a for a in ancestors(n) if isinstance(a, ast.For)), None)
+            ren = {}
+            if lp is not None and isinstance(lp.target, ast.Tuple):
+                for k_, e in enumerate(lp.target.elts):
+                    if isinstance(e, ast.Name):
+                        ren[e.id] = f"t{k_}"
+            elif lp is not None and isinstance(lp.target, ast.Name):
+                ren[lp.target.id] = "r"
+
+            def canon(t):
+                return re.sub(r"\b(" + "|".join(map(re.escape, ren)) + r")\b", lambda m: ren[m.group(1)], t) if ren else t
+
+            gotc = sorted(canon(t) for t in got)
+            okg = gotc == sorted(want)
+            extra = [t for t in gotc if t not in want]
+            missing = [t for t in want if t not in gotc]
+            if okg:
+                r.add(f, n, True, slots=dict(selection=gotc or ["every arc"]), construct=f"{f.name}: which arcs become edges")
+            elif extra and not missing:
+                r.add(f, n, False, f"`{first_line(n)}` is reached only under the additional condition(s) {extra}: arcs/rules failing them are left out of the "
+                      f"graph although they carry weight (an ε self-loop contributes the factor star(w))", construct=f"{f.name}: which arcs become edges")
+            else:
+                r.undecided(f, n, f"edge selection {gotc} differs from the expected {sorted(want)}", construct=f"{f.name}: which arcs become edges")
+    # every end point is registered as a node even when the stored weight is the zero (isolated nodes have closure one)
+    si = P.func("linear.py::WeightedGraph.__setitem__")
+    r.looked_at(si)
+    regs = [n for n in walk_live(si.node) if isinstance(n, ast.Call) and isinstance(n.func, ast.Attribute) and n.func.attr in ("add", "update")
+            and norm(n.func.value) == "self.N"]
+    if not regs:
+        r.undecided(si, si.node, "node registration (self.N.add / update) not found", construct="__setitem__: node registration")
+    for n in regs:
+        guards = [t for t in W.cfacts(si.node, n)]
+        ok = not guards
+        r.add(si, n, ok, "" if ok else f"`{first_line(n)}` registers the end points only when {guards}: a node mentioned only through zero-weight entries is "
+              f"missing from N (no K[i,i] = one, b[i] dropped by the solvers, blocks no longer partition the nodes)", construct="__setitem__: node registration")
+    r.min_instances = 9
     return r
+
+
+ACCUM_GUARDS = {
+    "wfsa/base.py::WFSA.G": [],
+    "wfsa/base.py::WFSA.E": ["EPSILON == t1"],
+    "cfg.py::CFG._unary_graph": ["1 == len(r.body)", "self.is_nonterminal(r.body[0])"],
+    "cfg.py::CFG._unary_graph_transpose": ["1 == len(r.body)", "self.is_nonterminal(r.body[0])"],
+}
 
 
 def rule_det_key(P):
